@@ -188,7 +188,10 @@ fn is_children_empty(children: &[Node]) -> bool {
 fn is_empty_value(value: &Value) -> bool {
     match value {
         Value::Static { value, .. } => value.is_empty(),
-        Value::Dynamic { .. } => false,
+        // (`{{ "" }}` is printed as nothing: the value is as empty as the static one it is read back as)
+        Value::Dynamic { expression, .. } => {
+            matches!(&**expression, Expression::LitStr { value, .. } if value.is_empty())
+        }
     }
 }
 
@@ -681,7 +684,7 @@ impl Stringify for Element {
             } => {
                 stringifier.write_str("slot")?;
                 write_slot_and_slot_values(stringifier, &common.slot, &common.slot_value_refs)?;
-                if !name.1.is_empty() {
+                if !is_empty_value(&name.1) {
                     write_named_attr(stringifier, "name", &name.0, &name.1)?;
                 }
                 for attr in values.iter() {
